@@ -10,26 +10,32 @@ from props import _c06_tables
 ID = "C06"
 COQ_REQUIRE = "C06.Run"
 SHARD = 150
-RULE = ("kernel records printed by the Coq kernel printers (k_stat, k_status) from generated task records: comm of 0-15 bytes "
-        "(threads up to 64) over an alphabet weighted towards ')' '(' space tab newline ':' backslash digits, the literal "
-        "prefixes 'Uid:\\t' 'Gid:\\t' 'Threads:\\t' 'ctxt_switches:\\t' and bytes >= 0x80; 12 documented state letters + 3 "
-        "unknown; counters from {0,1,99,2^31,2^32,2^63,2^64-1,10^25}; 37..50 fields after the name (old-kernel records "
-        "without delayacct_blkio_ticks); tick rates {1,100,250,1000,1024}; /dev listings with tty/pts nodes; 1-8 threads "
-        "with their own names, vanishing threads, dead/zombie owner; ppid_map over several processes; plus a malformed "
-        "stream (truncated / mutated records) compared with the model only. A case is non-trivial when its name is "
-        "non-empty or a counter is non-zero; distinct = distinct canonical case hash.")
-TRUSTED = ["correspondence harness props/C06.py + pv/ (fake /proc tree; glob.glob/os.stat patched for the /dev listing; "
-           "psutil._pslinux.CLOCK_TICKS patched to the case's tick rate)",
-           "kernel formats of /proc/<pid>/stat, /proc/<pid>/status (Name escaping), new_encode_dev and glibc makedev "
-           "transcribed in coq/C06/Spec.v",
-           "table translator props/_c06_tables.py (PROC_STATUSES -> coq/Gen/C06_Tables.v)",
-           "CPython re engine agrees with the four hand-written scanners of coq/C06/Model.v (exercised by the run)"]
-ASSUMPTIONS = ["CPython semantics of bytes.find/rfind/split/strip, int(), float() on integral text, list.sort, dict are modelled, not verified",
+RULE = ("kernel records printed by the Coq kernel printers (k_stat, k_status, k_procstat) from generated task records: comm of 0-15 "
+        "bytes (threads up to 64) over an alphabet weighted towards ')' '(' space tab newline ':' backslash digits, the literal "
+        "prefixes 'Uid:\\t' 'Gid:\\t' 'Threads:\\t' 'ctxt_switches:\\t' and bytes >= 0x80; 12 documented state letters + 4 "
+        "unknown; counters from {0,1,99,2^31,2^32,2^63,2^64-1,10^25}; N = 39..52 fields (old-kernel records without "
+        "delayacct_blkio_ticks); tick rates {1,100,250,1000,1024}; four /proc/stat layouts for btime; /dev and /dev/pts as "
+        "directory listings scanned by the real glob (tty and non-tty names, dot-files, aliases = several paths for one device, "
+        "nodes that vanish, pts minors up to 2^20-1); read faults on the stat file between construction and call (ESRCH/ENOENT/"
+        "EACCES x re-read) for name/status/cpu_num; 1-8 threads with their own names, vanishing threads, dead/zombie owner; "
+        "ppid_map/pids over /proc listings with present/vanished/unreadable processes and non-numeric entries; plus a malformed "
+        "stream (truncated / mutated records, broken /proc/stat, rdev-0 files, unreadable thread files) compared with the model "
+        "only. A case is non-trivial when its name is non-empty or a counter is non-zero; distinct = distinct canonical case hash.")
+TRUSTED = ["correspondence harness props/C06.py + pv/ (fake /proc tree; os.scandir/os.stat patched for /dev and /dev/pts under "
+           "the real glob; psutil._common.open patched for read faults; psutil._pslinux.CLOCK_TICKS patched to the case's tick rate)",
+           "kernel formats of /proc/<pid>/stat, /proc/<pid>/status (Name escaping), /proc/stat btime, new_encode_dev and glibc "
+           "makedev transcribed in coq/C06/Spec.v",
+           "table translator props/_c06_tables.py (PROC_STATUSES, STATUS_ZOMBIE -> coq/Gen/C06_Tables.v)",
+           "CPython re engine agrees with the four hand-written scanners of coq/C06/Model.v; glob/fnmatch agree with glob_tty/"
+           "glob_pts (both exercised by the run)"]
+ASSUMPTIONS = ["CPython semantics of bytes.find/rfind/split/strip/isdigit, int(), float() on integral text, list.sort, dict are modelled, not verified",
                "float()/int() input longer than 300 digits, float literals that are not integers, and non-ASCII state "
                "tokens are outside the model (OutOfModel, skipped)",
-               "boot time is the integer btime of /proc/stat, passed to the model as a number (boot_time() itself belongs to C19)",
-               "IEEE double rounding of float(ticks)/CLOCK_TICKS is accepted within 2^-48 relative"]
-EXHAUSTIVE = {"quick": "all 12 PROC_STATUSES letters against the documented table (Coq, vm_compute) and as cases",
+               "directory names of /proc that are all digits are canonical decimals (no leading zeros) and distinct",
+               "IEEE double rounding of float(ticks)/CLOCK_TICKS (+ btime) is accepted within tol x = 2^-48 * max(1,|x|); theorem "
+               "C06_tolerance_below_half_tick shows 2*tol < one tick for |x| <= 2^36 s, CLK <= 1024"]
+EXHAUSTIVE = {"quick": "all 12 PROC_STATUSES letters against the documented table and the whole table against the documented "
+                       "letters (Coq, vm_compute, both directions) and as cases",
               "thorough": "all 585 names of length <= 3 over the critical alphabet {')','(',' ','\\n','\\t',':','\\\\','a'} "
                           "as process name (stat + status) and as thread name"}
 
@@ -93,36 +99,81 @@ def _py_k_stat(pid, comm, after):
     return str(pid).encode() + b" (" + comm + b") " + b" ".join(after) + b"\n"
 
 
-def _devs(rng):
-    devs = []
+PROCSTAT = [
+    (["cpu  10 0 10 100 0 0 0 0 0 0", "cpu0 10 0 10 100 0 0 0 0 0 0", "intr 5", "ctxt 7"],
+     ["processes 3", "procs_running 1", "procs_blocked 0", "softirq 9"]),
+    ([], []),
+    (["cpu  1 2 3 4", "page 5 6", "swap 1 1", "intr 9 9 9", "disk_io: (3,0):(1,1,1,1,1)", "ctxt 12"], ["processes 40"]),
+    (["cpu  1 2 3 4", "xbtime 3", " btime 4"], ["btime 99", "processes 1"]),
+]
+
+
+def _dirs_gen(rng):
+    """/dev and /dev/pts as directory listings: [name, major, minor, gone]."""
+    dev, pts = [], []
     if rng.random() < 0.85:
         for i in rng.sample(range(0, 64), rng.randint(0, 4)):
-            devs.append(["/dev/tty%d" % i, 4, i])
+            dev.append(["tty%d" % i, 4, i, False])
         if rng.random() < 0.5:
-            devs.append(["/dev/tty", 5, 0])
+            dev.append(["tty", 5, 0, False])
         if rng.random() < 0.3:
-            devs.append(["/dev/ttyS0", 4, 64])
+            dev.append(["ttyS0", 4, 64, rng.random() < 0.3])
+        for nm, ma, mi in rng.sample([("null", 1, 3), ("console", 5, 1), ("ptmx", 5, 2), ("sda", 8, 0), ("tt", 4, 9),
+                                      (".tty9", 4, 9), ("xtty1", 4, 1), ("TTY2", 4, 2)], rng.randint(0, 3)):
+            dev.append([nm, ma, mi, False])          # not matched by 'tty*'
+        rng.shuffle(dev)
         for i in rng.sample([0, 1, 2, 7, 255, 256, 257, 4095, 4096, 65535, 2 ** 19 - 1], rng.randint(0, 4)):
-            devs.append(["/dev/pts/%d" % i, 136 + (i >> 20), i])
-    return devs
+            pts.append([str(i), 136 + (i >> 20), i, rng.random() < 0.05])
+        if rng.random() < 0.4:
+            pts.append(["ptmx", 5, 2, False])
+        if pts and rng.random() < 0.25:                 # a second path for a listed device (which one wins?)
+            d = rng.choice(pts)
+            pts.insert(rng.randint(0, len(pts)), [rng.choice(["alias", "z", "0copy"]), d[1], d[2], False])
+        if pts and rng.random() < 0.15:                 # dot-files are not globbed
+            d = rng.choice(pts)
+            pts.append([".hidden", d[1], d[2], False])
+        if dev and pts and rng.random() < 0.1:          # /dev/ttyX and /dev/pts/Y naming one device
+            d = rng.choice(pts)
+            dev.append(["ttyalias", d[1], d[2], False])
+    return dev, pts
+
+
+def _dirs(case):
+    """(dev, pts) of a stat case; corpus cases written before the directory model carry a flat 'devs' list."""
+    if "dev" in case:
+        return case["dev"], case["pts"]
+    dev = [[p[len("/dev/"):], ma, mi, False] for p, ma, mi in case["devs"] if not p.startswith("/dev/pts/")]
+    pts = [[p[len("/dev/pts/"):], ma, mi, False] for p, ma, mi in case["devs"] if p.startswith("/dev/pts/")]
+    return dev, pts
+
+
+def _procstat(case):
+    pre, post = PROCSTAT[case.get("ps", 0)]
+    return pre, str(case["btime"]), post
+
+
+def _py_k_procstat(case):
+    pre, bt, post = _procstat(case)
+    return "".join(l + "\n" for l in pre + ["btime " + bt] + post).encode()
 
 
 def _stat_case(rng, comm=None, cls=None, known_high=False):
-    devs = _devs(rng)
+    dev, pts = _dirs_gen(rng)
+    listed = [d for d in dev if d[0].startswith("tty")] + [d for d in pts if not d[0].startswith(".")]
     k = rng.random()
     if k < 0.3:
         tty = None
-    elif k < 0.75 and devs:
-        d = rng.choice(devs)
+    elif k < 0.75 and listed:
+        d = rng.choice(listed)
         tty = [d[1], d[2]]
     else:
         tty = [rng.choice([4, 136, 136, 137, 188, 4095]), rng.choice([0, 1, 63, 255, 256, 300, 4096, 2 ** 19 - 1])]
         if rng.random() < 0.5:
-            devs.append(["/dev/pts/x%d" % tty[1], tty[0], tty[1]])
+            pts.append(["x%d" % tty[1], tty[0], tty[1], False])
     if known_high:
         mi = rng.choice([2 ** 19, 2 ** 19 + 5, 2 ** 20 - 1])
         tty = [136, mi]
-        devs.append(["/dev/pts/%d" % mi, 136, mi])
+        pts.append([str(mi), 136, mi, False])
     comm = _comm(rng) if comm is None else comm
     c = {"kind": "stat", "pid": rng.choice([1, PID, 4194303]), "comm": comm.hex(), "state": rng.choice(STATES).hex(),
          "ppid": rng.choice([0, 1, 2, 77, 4194303]), "tty": tty,
@@ -131,7 +182,8 @@ def _stat_case(rng, comm=None, cls=None, known_high=False):
          "cstime": rng.choice(COUNTERS), "starttime": rng.choice(COUNTERS + [5000, 424242]),
          "processor": rng.choice([0, 1, 3, 127, 8191]), "blkio": rng.choice(COUNTERS),
          "nfields": rng.choice([39, 40, 41, 42, 44, 47, 52, 52, 52, 52]), "clk": rng.choice(CLKS),
-         "btime": rng.choice([0, 1, 1500000000, 1700000000, 2 ** 31 + 5]), "devs": devs, "expect_spec": True}
+         "btime": rng.choice([0, 1, 1500000000, 1700000000, 2 ** 31 + 5]), "ps": rng.choice([0, 0, 0, 1, 2, 3]),
+         "dev": dev, "pts": pts, "expect_spec": True}
     if cls is None:
         trivial = not comm and not any(c[x] for x in ("utime", "stime", "cutime", "cstime", "starttime"))
         cls = "trivial" if trivial else "stat" + ("-oldkernel" if c["nfields"] < 42 else "") + ("-tty" if tty else "")
@@ -187,12 +239,18 @@ def _threads_case(rng, comm=None, cls=None):
     return c
 
 
+OTHER_NAMES = ["self", "thread-self", "sys", "net", "cpuinfo", "12x", "x12", "1 2", "-5", "+5", "1_0", "１２"]
+
+
 def _ppid_map_case(rng):
     n = rng.choice([1, 2, 3, 6])
-    pids = sorted(rng.sample([1, 2, 10, 77, 300, PID, 99999, 4194303], n))
-    procs = [{"pid": p, "comm": _comm(rng).hex(), "ppid": rng.choice([0, 1, 2, 10, 77, 4194303]),
-              "gone": rng.random() < 0.1} for p in pids]
-    return {"kind": "ppid_map", "cls": "ppid_map", "procs": procs, "expect_spec": True}
+    pids = rng.sample([1, 2, 10, 77, 300, PID, 99999, 4194303], n)
+    ents = [{"pid": p, "comm": _comm(rng).hex(), "ppid": rng.choice([0, 1, 2, 10, 77, 4194303]),
+             "state": rng.choice(["present"] * 8 + ["gone", "denied"])} for p in pids]
+    for nm in rng.sample(OTHER_NAMES, rng.choice([0, 1, 2, 3])):
+        ents.insert(rng.randint(0, len(ents)), {"other": nm})
+    return {"kind": "ppid_map", "cls": "ppid_map" + ("-mixed" if any("other" in e for e in ents) else ""),
+            "ents": ents, "expect_spec": True}
 
 
 def _mutate(rng, data):
@@ -236,16 +294,26 @@ def _raw_stat_case(rng):
         data = _py_k_stat(base["pid"], bytes.fromhex(base["comm"]), after)
     else:
         data = _mutate(rng, _py_k_stat(base["pid"], bytes.fromhex(base["comm"]), after))
-    devs = [[d[0], glibc_makedev(d[1], d[2])] for d in base["devs"]]
-    if devs and rng.random() < 0.3:
-        devs[rng.randrange(len(devs))][1] = None          # node vanished between glob and stat
-    if devs and rng.random() < 0.3:
-        devs.append(["/dev/pts/dup", devs[0][1]])         # two paths, one device
+    dev = [[d[0], None if d[3] else glibc_makedev(d[1], d[2])] for d in base["dev"]]
+    pts = [[d[0], None if d[3] else glibc_makedev(d[1], d[2])] for d in base["pts"]]
     if rng.random() < 0.2:
-        devs.append(["/dev/ttyfile", 0])                  # not a device node: st_rdev == 0
-    devs = [d for d in devs if d[0].startswith("/dev/tty")] + [d for d in devs if d[0].startswith("/dev/pts/")]
+        dev.append(["ttyfile", 0])                        # not a device node: st_rdev == 0
+    procstat = _py_k_procstat(base)
+    k = rng.random()
+    if k < 0.1:
+        procstat = rng.choice([b"", b"cpu 1 2 3\n", b"btime\n", b"btime x\n", b"btimex 5\n", b"cpu 1\nbtime\t7 8\n",
+                               b" btime 5\n", b"btime 1_0\nbtime 3\n", b"btime 5"])
     return {"kind": "stat_raw", "cls": "raw-stat", "pid": base["pid"], "data": data.hex(), "clk": base["clk"],
-            "btime": base["btime"], "devs": devs}
+            "procstat": procstat.hex(), "dev": dev, "pts": pts}
+
+
+def _race_case(rng):
+    base = _stat_case(rng)
+    base["state"] = rng.choice(["5a", "5a", "53", "52", "5a58"])
+    first = rng.choice(["ESRCH", "ENOENT", "EACCES"])
+    second = rng.choice(["data", "data", "data", "ENOENT", "EACCES"])
+    return dict(base, kind="stat_race", cls="race-" + first.lower(), first=first, second=second,
+                exists=rng.random() < 0.7, expect_spec=True)
 
 
 def _raw_threads_case(rng):
@@ -258,21 +326,25 @@ def _raw_threads_case(rng):
         data = _py_k_stat(5, bytes.fromhex(t["comm"]), after)
         if rng.random() < 0.7:
             data = _mutate(rng, data)
-        listing.append([nm, None if rng.random() < 0.1 else data.hex()])
+        k = rng.random()
+        listing.append([nm, None if k < 0.1 else "denied" if k < 0.15 else data.hex()])
     return {"kind": "threads_raw", "cls": "raw-threads", "clk": rng.choice(CLKS), "listing": listing,
             "alive": rng.random() < 0.7, "own": _py_k_stat(PID, b"own", _own_after(rng.choice(["53", "5a"]))).hex()}
 
 
 def _raw_ppid_case(rng):
-    pids = sorted(rng.sample([1, 2, 10, 77, 300, PID], rng.choice([1, 2, 3])))
-    procs = []
+    pids = rng.sample([1, 2, 10, 77, 300, PID], rng.choice([1, 2, 3]))
+    listing = []
     for p in pids:
         base = _stat_case(rng)
         data = _py_k_stat(p, bytes.fromhex(base["comm"]), _after(base))
         if rng.random() < 0.6:
             data = _mutate(rng, data)
-        procs.append([p, None if rng.random() < 0.1 else data.hex()])
-    return {"kind": "ppid_map_raw", "cls": "raw-ppid_map", "procs": procs}
+        k = rng.random()
+        listing.append([str(p), None if k < 0.1 else "denied" if k < 0.2 else data.hex()])
+    for nm in rng.sample(OTHER_NAMES, rng.choice([0, 1, 2])):
+        listing.insert(rng.randint(0, len(listing)), [nm, rng.choice([None, "denied", b"1 (x) S 5".hex()])])
+    return {"kind": "ppid_map_raw", "cls": "raw-ppid_map", "listing": listing}
 
 
 def gen_cases(rng, tier):
@@ -283,14 +355,16 @@ def gen_cases(rng, tier):
         c = _stat_case(rng, comm=b"st)ate (x", cls="stat-letter")
         c["state"] = st.hex()
         cases.append(c)
-    for _ in range(260 * n):
+    for _ in range(230 * n):
         cases.append(_stat_case(rng))
-    for _ in range(220 * n):
+    for _ in range(180 * n):
         cases.append(_status_case(rng))
-    for _ in range(130 * n):
+    for _ in range(110 * n):
         cases.append(_threads_case(rng))
     for _ in range(50 * n):
         cases.append(_ppid_map_case(rng))
+    for _ in range(40 * n):
+        cases.append(_race_case(rng))
     for _ in range(120 * n):
         cases.append(_raw_stat_case(rng))
     for _ in range(40 * n):
@@ -360,14 +434,24 @@ def _pos(n):
 
 def coq_term(case):
     k = case["kind"]
+    if k in ("stat", "stat_race"):
+        rec = _kstat(case["pid"], bytes.fromhex(case["comm"]), _after(case))
     if k == "stat":
-        devs = G.lst(["(Build_devnode %s %s %s)" % (G.by(p), G.z(ma), G.z(mi)) for p, ma, mi in case["devs"]])
+        dev, pts = _dirs(case)
+        node = lambda d: "(Build_devnode %s %s %s %s)" % (G.by(d[0]), G.z(d[1]), G.z(d[2]), G.bo(d[3]))  # noqa
         tty = "None" if case["tty"] is None else "(Some (%s, %s))" % (G.z(case["tty"][0]), G.z(case["tty"][1]))
-        return "run_stat %s %s %s %s %s %s" % (G.bo(MASKED_TTY), _pos(case["clk"]), G.z(case["btime"]), devs, tty,
-                                            _kstat(case["pid"], bytes.fromhex(case["comm"]), _after(case)))
+        pre, bt, post = _procstat(case)
+        ps = "(Build_kprocstat %s %s %s)" % (G.lst([G.by(x) for x in pre]), G.by(bt), G.lst([G.by(x) for x in post]))
+        return "run_stat %s %s %s %s %s %s %s" % (G.bo(MASKED_TTY), _pos(case["clk"]), ps, G.lst([node(d) for d in dev]),
+                                               G.lst([node(d) for d in pts]), tty, rec)
     if k == "stat_raw":
-        devs = G.lst(["(%s, %s)" % (G.by(p), G.opt(r, G.z)) for p, r in case["devs"]])
-        return "run_stat_raw %s %s %s %s %s" % (G.bo(MASKED_TTY), _pos(case["clk"]), G.z(case["btime"]), devs, G.by(bytes.fromhex(case["data"])))
+        raw = lambda ds: G.lst(["(%s, %s)" % (G.by(n), G.opt(r, G.z)) for n, r in ds])  # noqa
+        return "run_stat_raw %s %s %s %s %s %s" % (G.bo(MASKED_TTY), _pos(case["clk"]), G.by(bytes.fromhex(case["procstat"])),
+                                                raw(case["dev"]), raw(case["pts"]), G.by(bytes.fromhex(case["data"])))
+    if k == "stat_race":
+        err = {"ESRCH": "SESRCH", "ENOENT": "SENOENT", "EACCES": "SEACCES"}
+        second = "None" if case["second"] == "data" else "(Some %s)" % err[case["second"]]
+        return "run_stat_race %s %s %s %s" % (rec, err[case["first"]], second, G.bo(case["exists"]))
     if k == "status":
         ls = lambda xs: G.lst([G.by(x) for x in xs])  # noqa
         ids = " ".join(G.by(str(x)) for x in case["uid"] + case["gid"])
@@ -383,23 +467,32 @@ def coq_term(case):
         own = _kstat(PID, b"own", _own_after(case["own_state"]))
         return "run_threads %s %s %s %s" % (_pos(case["clk"]), G.lst(ts), G.bo(case["alive"]), own)
     if k == "threads_raw":
-        ls = ["(%s, %s)" % (G.by(nm), "TGone" if d is None else "(TContent %s)" % G.by(bytes.fromhex(d))) for nm, d in case["listing"]]
+        ls = ["(%s, %s)" % (G.by(nm), _tfile(d)) for nm, d in case["listing"]]
         return "run_threads_raw %s %s %s %s" % (_pos(case["clk"]), G.lst(ls), G.bo(case["alive"]), G.by(bytes.fromhex(case["own"])))
     if k == "ppid_map":
-        ps = []
-        for p in case["procs"]:
-            after = [b"S", str(p["ppid"]).encode()] + [str(1000 + i).encode() for i in range(5, 53)]
-            ps.append("(Build_kproc %s %s %s)" % (G.z(p["pid"]), _kstat(p["pid"], bytes.fromhex(p["comm"]), after), G.bo(p["gone"])))
-        return "run_ppid_map %s" % G.lst(ps)
+        es = []
+        for e in case["ents"]:
+            if "other" in e:
+                es.append("(KOther %s TGone)" % G.by(e["other"]))
+                continue
+            after = [b"S", str(e["ppid"]).encode()] + [str(1000 + i).encode() for i in range(5, 53)]
+            st = {"present": "PPresent", "gone": "PGone", "denied": "PDenied"}[e["state"]]
+            es.append("(KProc (Build_kproc %s %s %s))" % (G.by(str(e["pid"])), _kstat(e["pid"], bytes.fromhex(e["comm"]), after), st))
+        return "run_ppid_map %s" % G.lst(es)
     if k == "ppid_map_raw":
-        ps = ["(%s, %s)" % (G.z(p), "TGone" if d is None else "(TContent %s)" % G.by(bytes.fromhex(d))) for p, d in case["procs"]]
-        return "run_ppid_map_raw %s" % G.lst(ps)
+        return "run_ppid_map_raw %s" % G.lst(["(%s, %s)" % (G.by(nm), _tfile(d)) for nm, d in case["listing"]])
     raise ValueError(k)
+
+
+def _tfile(d):
+    return "TGone" if d is None else "TDenied" if d == "denied" else "(TContent %s)" % G.by(bytes.fromhex(d))
 
 
 def coq_struct(case, raw):
     k = case["kind"]
-    if k in ("stat", "status", "ppid_map"):
+    if k == "stat":
+        return {"printed": raw[0], "procstat": raw[1], "model": raw[2], "spec": raw[3]}
+    if k in ("status", "ppid_map", "stat_race"):
         return {"printed": raw[0], "model": raw[1], "spec": raw[2]}
     if k == "threads":
         return {"printed": raw[0], "own": raw[1], "model": raw[2], "spec": raw[3]}
@@ -435,7 +528,10 @@ def _oom(x):
 
 
 METHODS = {"stat": ["name", "ppid", "status", "cpu_times", "create_time", "cpu_num", "terminal"],
-           "status": ["uids", "gids", "num_threads", "num_ctx_switches"]}
+           "status": ["uids", "gids", "num_threads", "num_ctx_switches"],
+           "race": ["name", "status", "cpu_num"], "ppid": ["ppid_map", "pids"]}
+KIND_GROUP = {"stat": "stat", "stat_raw": "stat", "status": "status", "status_raw": "status", "stat_race": "race",
+              "ppid_map": "ppid", "ppid_map_raw": "ppid"}
 
 
 def judge(case, coq, impl):
@@ -444,8 +540,8 @@ def judge(case, coq, impl):
     model, spec = coq["model"], coq["spec"]
     if case.get("expect_spec") and spec is None:
         return Verdict("corr", "harness: the specification does not apply to a generated kernel record (wf false)")
-    if k in ("stat", "stat_raw", "status", "status_raw"):
-        names = METHODS[k.split("_")[0]]
+    if k in KIND_GROUP:
+        names = METHODS[KIND_GROUP[k]]
         specs = spec if spec is not None else [None] * len(names)
         bad_spec = [n for n, i, s in zip(names, impl, specs) if s is not None and not _same(i, s)]
         if bad_spec:
@@ -510,48 +606,95 @@ def _call(psutil, pid, meth, conv):
     return outcome(lambda: getattr(psutil.Process(pid), meth)(), conv)
 
 
+class _Entry:
+    """What glob's os.scandir() loop needs of a directory entry."""
+    def __init__(self, name):
+        self.name = name
+
+    def is_dir(self, follow_symlinks=True):
+        return False
+
+
+class _Scan:
+    def __init__(self, names):
+        self.names = names
+
+    def __enter__(self):
+        return iter([_Entry(n) for n in self.names])
+
+    def __exit__(self, *a):
+        return False
+
+
+def _oserr(kind, path):
+    import errno
+    cls, no = {"ENOENT": (FileNotFoundError, errno.ENOENT), "ESRCH": (ProcessLookupError, errno.ESRCH),
+               "EACCES": (PermissionError, errno.EACCES)}[kind]
+    return cls(no, os.strerror(no), path)
+
+
 def _impl_run(case, coq, env):
-    import glob
+    import builtins
     import shutil
     import psutil
-    from psutil import _pslinux, _psposix
+    from psutil import _common, _pslinux, _psposix
     from pv import fakeproc
     k = case["kind"]
     root = os.path.join(env["work"], "proc")
     fp = fakeproc.FakeProc(root, btime=case.get("btime", 1500000000))
     fakeproc.attach(psutil, root)
     real_clk = _pslinux.CLOCK_TICKS
-    real_glob, real_stat, real_listdir = glob.glob, os.stat, os.listdir
+    real_stat, real_listdir, real_scandir = os.stat, os.listdir, os.scandir
     _pslinux.CLOCK_TICKS = case.get("clk", real_clk)
+    had_open = "open" in vars(_common)
+    # psutil._common.open_binary / open_text resolve `open` in psutil._common's globals first
+    state = {"plan": {}, "denied": set()}
+
+    def fake_open(path, *a, **kw):
+        if isinstance(path, str):
+            if path in state["denied"]:
+                raise _oserr("EACCES", path)
+            plan = state["plan"].get(path)
+            if plan:
+                what = plan.pop(0)
+                if what is not None:
+                    raise _oserr(what, path)
+        return builtins.open(path, *a, **kw)
+    _common.open = fake_open
     try:
         if k in ("stat", "stat_raw"):
             pid = case["pid"]
             fp.add(pid)
             fp.write(pid, "cmdline", b"")   # name() must not be replaced by a cmdline-derived one (that is C12)
             fp.write(pid, "stat", unB(coq["printed"]) if k == "stat" else bytes.fromhex(case["data"]))
+            with open(os.path.join(root, "stat"), "wb") as f:
+                f.write(unB(coq["procstat"]) if k == "stat" else bytes.fromhex(case["procstat"]))
             if k == "stat":
-                devmap = {p: glibc_makedev(ma, mi) for p, ma, mi in case["devs"]}
-                order = [p for p, _, _ in case["devs"]]
+                dev, pts = _dirs(case)
+                dev = [[d[0], None if d[3] else glibc_makedev(d[1], d[2])] for d in dev]
+                pts = [[d[0], None if d[3] else glibc_makedev(d[1], d[2])] for d in pts]
             else:
-                devmap = {p: r for p, r in case["devs"]}
-                order = [p for p, _ in case["devs"]]
+                dev, pts = case["dev"], case["pts"]
+            rdev = {}
+            for n, r in dev:
+                rdev["/dev/" + n] = r
+            for n, r in pts:
+                rdev["/dev/pts/" + n] = r
 
-            def fake_glob(pat, *a, **kw):
-                if pat == "/dev/tty*":
-                    return [p for p in order if p.startswith("/dev/tty")]
-                if pat == "/dev/pts/*":
-                    return [p for p in order if p.startswith("/dev/pts/")]
-                return real_glob(pat, *a, **kw)
+            def fake_scandir(path=".", *a):
+                if path == "/dev":
+                    return _Scan([n for n, _ in dev])
+                if path == "/dev/pts":
+                    return _Scan([n for n, _ in pts])
+                return real_scandir(path, *a)
 
             def fake_stat(path, *a, **kw):
-                if isinstance(path, str) and path in devmap:
-                    if devmap[path] is None:
-                        raise FileNotFoundError(2, "No such file or directory", path)
-                    return _Rdev(devmap[path])
+                if isinstance(path, str) and path in rdev:
+                    if rdev[path] is None:
+                        raise _oserr("ENOENT", path)
+                    return _Rdev(rdev[path])
                 return real_stat(path, *a, **kw)
-            # the model's listing is glob('/dev/tty*') + glob('/dev/pts/*'): keep that order on the Coq side too
-            assert order == [p for p in order if p.startswith("/dev/tty")] + [p for p in order if p.startswith("/dev/pts/")], order
-            glob.glob, os.stat = fake_glob, fake_stat
+            os.scandir, os.stat = fake_scandir, fake_stat
             _psposix.get_terminal_map.cache_clear()
             try:
                 return [
@@ -565,8 +708,29 @@ def _impl_run(case, coq, env):
                     _call(psutil, pid, "terminal", lambda r: None if r is None else B(r)),
                 ]
             finally:
-                glob.glob, os.stat = real_glob, real_stat
+                os.scandir, os.stat = real_scandir, real_stat
                 _psposix.get_terminal_map.cache_clear()
+        if k == "stat_race":
+            pid = case["pid"]
+            fp.add(pid)
+            fp.write(pid, "cmdline", b"")
+            spath = fp.write(pid, "stat", unB(coq["printed"]))
+
+            def fake_stat(path, *a, **kw):
+                if not case["exists"] and path == spath:
+                    raise _oserr("ENOENT", path)
+                return real_stat(path, *a, **kw)
+            out = []
+            for meth, conv in (("name", B), ("status", B), ("cpu_num", int)):
+                p = psutil.Process(pid)               # constructed while the file is readable
+                state["plan"][spath] = [case["first"], None if case["second"] == "data" else case["second"]]
+                os.stat = fake_stat
+                try:
+                    out.append(outcome(getattr(p, meth), conv))
+                finally:
+                    os.stat = real_stat
+                    state["plan"].pop(spath, None)
+            return out
         if k in ("status", "status_raw"):
             pid = PID
             fp.add(pid)
@@ -587,10 +751,13 @@ def _impl_run(case, coq, env):
             if k == "threads":
                 items = [(str(t["tid"]), None if t["gone"] else unB(pr)) for t, pr in zip(case["threads"], coq["printed"])]
             else:
-                items = [(nm, None if d is None else bytes.fromhex(d)) for nm, d in case["listing"]]
+                items = [(nm, d if d in (None, "denied") else bytes.fromhex(d)) for nm, d in case["listing"]]
             for nm, data in items:
                 os.makedirs(os.path.join(task, nm))
-                if data is not None:
+                if data == "denied":
+                    _write(os.path.join(task, nm, "stat"), b"")
+                    state["denied"].add(os.path.join(task, nm, "stat"))
+                elif data is not None:
                     _write(os.path.join(task, nm, "stat"), data)
             p = psutil.Process(pid)
             alive = case["alive"]
@@ -598,7 +765,7 @@ def _impl_run(case, coq, env):
 
             def fake_stat(path, *a, **kw):
                 if not alive and isinstance(path, str) and (path + "/").startswith(pdir + "/"):
-                    raise FileNotFoundError(2, "No such file or directory", path)
+                    raise _oserr("ENOENT", path)
                 return real_stat(path, *a, **kw)
             os.stat = fake_stat
             try:
@@ -607,14 +774,23 @@ def _impl_run(case, coq, env):
                 os.stat = real_stat
         if k in ("ppid_map", "ppid_map_raw"):
             if k == "ppid_map":
-                items = [(p["pid"], None if p["gone"] else unB(pr)) for p, pr in zip(case["procs"], coq["printed"])]
+                items = []
+                for e, pr in zip(case["ents"], coq["printed"]):
+                    if "other" in e:
+                        items.append((e["other"], "other"))
+                    else:
+                        items.append((str(e["pid"]), {"present": None, "gone": "gone", "denied": "denied"}[e["state"]] or unB(pr)))
             else:
-                items = [(p, None if d is None else bytes.fromhex(d)) for p, d in case["procs"]]
-            for pid, data in items:
-                os.makedirs(os.path.join(root, str(pid)))
-                if data is not None:
-                    _write(os.path.join(root, str(pid), "stat"), data)
-            order = [str(pid).encode() for pid, _ in items]
+                items = [(nm, "gone" if d is None else d if d == "denied" else bytes.fromhex(d)) for nm, d in case["listing"]]
+            for nm, data in items:
+                d = os.path.join(root, nm)
+                os.makedirs(d)
+                if data == "denied":
+                    _write(os.path.join(d, "stat"), b"")
+                    state["denied"].add(os.path.join(d, "stat"))
+                elif data not in ("gone", "other"):
+                    _write(os.path.join(d, "stat"), data)
+            order = [os.fsencode(nm) for nm, _ in items]
 
             def fake_listdir(path=".", *a):
                 r = real_listdir(path, *a)
@@ -625,13 +801,16 @@ def _impl_run(case, coq, env):
                 return r
             os.listdir = fake_listdir
             try:
-                return outcome(_pslinux.ppid_map, lambda d: [[a, b] for a, b in d.items()])
+                return [outcome(_pslinux.ppid_map, lambda d: [[a, b] for a, b in d.items()]),
+                        outcome(_pslinux.pids, list)]
             finally:
                 os.listdir = real_listdir
         raise ValueError(k)
     finally:
         _pslinux.CLOCK_TICKS = real_clk
-        glob.glob, os.stat, os.listdir = real_glob, real_stat, real_listdir
+        os.stat, os.listdir, os.scandir = real_stat, real_listdir, real_scandir
+        if not had_open:
+            del _common.open
 
 
 def gen_tables(impl_dir, out_dir):
@@ -639,18 +818,23 @@ def gen_tables(impl_dir, out_dir):
 
 
 MANIFEST = {
-    "text": "Theorems (Coq 8.16, all closed under the global context) over the Gallina transcription of _parse_stat_file, the stat-fed "
-            "accessors, the four status-file regex scanners, threads(), ppid_map() and get_terminal_map(): for EVERY kernel-formatted "
-            "stat record (any comm bytes of any length, any number >= 37 of fields after the name, any digit strings) name/ppid/"
-            "status/cpu_times/create_time/cpu_num/terminal return exactly the proc(5) fields (ticks/CLK as exact rationals, "
-            "start/CLK + boot, letter -> STATUS_* over the table generated from the code, tty number -> device path for every "
-            "major < 2^12 and minor < 2^20) and constructing the Process object never fails; for every status file (any comm) "
-            "uids/gids/num_threads are exact, num_ctx_switches is exact for comm <= 15 bytes (bound shown sharp); threads() is exact "
-            "for any list of threads with any names; ppid_map is exact. Refuted-for-the-old-code witnesses are kept (signed tty_nr). "
-            "The model is tied to the code by running the real psutil (public API, fake /proc and /dev, patched CLOCK_TICKS) and the "
-            "model on the same printed records and on a malformed stream.",
+    "text": "54 theorems (Coq 8.16, all closed under the global context) over the Gallina transcription of _parse_stat_file, the "
+            "stat-fed accessors, boot_time(), the nested wrap_exceptions + Process.status() front end, the four status-file regex "
+            "scanners, threads(), pids()/ppid_map() and get_terminal_map() with its two glob() calls. For EVERY kernel-formatted stat "
+            "record (any comm bytes of any length, every record length N >= 39 incl. 39..41 without blkio, any digit strings): "
+            "name/ppid/cpu_num exact; status() = documented constant for the 12 letters and '?' for every other ASCII token, the "
+            "generated PROC_STATUSES table proved equal to the documented mapping in both directions, ZombieProcess -> STATUS_ZOMBIE in "
+            "the front end; cpu_times = ticks/CLK (iowait from field 42, 0 when absent); create_time = start/CLK + btime of /proc/stat "
+            "(any position of the btime line), exact values of different ticks >= 1/CLK apart and twice the float tolerance < 1/CLK; "
+            "terminal() = path of the last listed node with the task's (major, minor) for EVERY /dev and /dev/pts listing (any nodes, "
+            "duplicates, vanished nodes, dot-files, non-tty names; major < 2^12, minor < 2^20), sound and complete; constructing "
+            "Process never fails. For every status file (any comm) uids/gids/num_threads exact; num_ctx_switches exact for comm <= 15 "
+            "bytes (bound sharp), NotImplementedError when the lines are absent. threads() exact for any threads with any names; "
+            "ppid_map()/pids() exact for any /proc listing (vanished, unreadable, non-numeric entries). Witness for the pre-fix "
+            "signed tty_nr kept. Tied to the code by running the real psutil (public API, fake /proc and /dev, patched CLOCK_TICKS, "
+            "read faults) and the model on the same printed records and on a malformed stream.",
     "note": "Trusted: Coq kernel + vm_compute; hand-written model coq/C06/Model.v (tied by the correspondence run only, including "
-            "the regex scanners standing for CPython's re); kernel formats in coq/C06/Spec.v; table translator; harness patches "
-            "(CLOCK_TICKS, glob.glob, os.stat, os.listdir); CPython builtins and IEEE doubles. Proof covers the model, sampling covers "
-            "model-vs-code.",
+            "the regex scanners standing for CPython's re and glob_tty/glob_pts standing for glob+fnmatch); kernel formats in "
+            "coq/C06/Spec.v; table translator; harness patches (CLOCK_TICKS, os.scandir, os.stat, os.listdir, psutil._common.open); "
+            "CPython builtins and IEEE doubles. Proof covers the model, sampling covers model-vs-code.",
 }
